@@ -31,6 +31,7 @@ def explore(ctx):
     fe.falsify_c11_chars(ctx, asm)
     fe.falsify_c11_exprs(ctx, asm, exprs)
     fe.falsify_c11_subst(ctx, asm)
+    fe.falsify_c11_redefine(ctx, asm)
     lines = ["X = " + fe.char_source(c) for c in fe.PRINTABLE] + ['X = ' + t for t, _ in exprs[:600]]
     lines += [t.format(K='K') for t, _ in fe.SITES]
     fe.correspondence(ctx, asm, lines, exprs)
